@@ -3,6 +3,9 @@ import UsualProofs.C12.Endian
 /-! Refinement: seen through `abs` (written bytes + read cursor) every function is the
 corresponding operation on a plain byte vector — bytes come back as written, in order;
 the integer getters deliver the big-endian value. -/
+set_option linter.unusedSimpArgs false
+set_option linter.unusedVariables false
+
 namespace UsualProofs.C12
 open Usual.C12
 
